@@ -74,7 +74,7 @@ func c01Tier(tier string) (maxLen, exh, random int) {
 	if tier == "thorough" {
 		return 4, c01ExhCount(4) * 4, 2000000
 	}
-	return 3, c01ExhCount(3) * 4, 20000
+	return 3, c01ExhCount(3) * 4, 200000
 }
 
 func randListCfg(r *core.Rng) ListCfg {
